@@ -247,9 +247,11 @@ pub fn gen_rep(rng: &mut Rng) -> G {
         // its lower bound (it then fails after having accepted items, and an alternative takes over)
         3 => {
             let (lo, hi) = (2 + rng.below(2), if rng.chance(1, 2) { None } else { Some(4) });
-            let grp = match rng.below(2) {
+            let grp = match rng.below(3) {
                 0 => G::Intersperse(rng.below(2) as u8, lo, hi, Box::new(G::One(0)), Box::new(G::One(4))),
-                _ => G::Repeat(rng.below(2) as u8, lo, hi, Box::new(G::Any(vec![0, 1]))),
+                1 => G::Repeat(rng.below(2) as u8, lo, hi, Box::new(G::Any(vec![0, 1]))),
+                // a token sequence that may fail after having matched a prefix
+                _ => if rng.chance(1, 2) { G::Seq(vec![0, 1, 2]) } else { G::SeqCount(vec![0, 1, 0]) },
             };
             let alt = G::Either(Box::new(grp), Box::new(G::Discard(Box::new(G::Repeat(0, 0, Some(2), Box::new(G::Any(vec![0, 1, 4])))))));
             G::Repeat(0, 0, None, Box::new(G::Both(Box::new(alt), Box::new(G::One(5)))))
@@ -618,6 +620,38 @@ pub fn derived_text(g: &G, rng: &mut Rng) -> String {
     s
 }
 
+/// A random properly nested bracket string over `( ) [ ] { }` with items `a`, then (half of the
+/// time) one token replaced, removed or inserted.
+fn nested_brackets_text(rng: &mut Rng) -> String {
+    fn go(rng: &mut Rng, depth: usize, out: &mut Vec<char>) {
+        let pairs = [('(', ')'), ('[', ']'), ('{', '}')];
+        let n = 1 + rng.below(if depth == 0 { 2 } else { 3 });
+        for _ in 0..n {
+            if depth >= 4 || rng.chance(1, 3) { out.push('a'); continue; }
+            let (o, c) = *rng.pick(&pairs);
+            // a run of the same kind, or a single pair
+            let run = if rng.chance(1, 3) { 2 + rng.below(2) } else { 1 };
+            for _ in 0..run { out.push(o); }
+            go(rng, depth + run, out);
+            for _ in 0..run { out.push(c); }
+        }
+    }
+    let mut v = Vec::new();
+    let (o, c) = *rng.pick(&[('(', ')'), ('[', ']'), ('{', '}')]);
+    v.push(o);
+    go(rng, 1, &mut v);
+    v.push(c);
+    if rng.chance(1, 2) { v.push(*rng.pick(&['a', ';', ')', ']'])); }
+    if v.len() > 24 { v.truncate(24); }
+    if rng.chance(1, 2) && !v.is_empty() {
+        let i = rng.below(v.len());
+        let r = *rng.pick(&['(', ')', '[', ']', '{', '}', 'a']);
+        match rng.below(3) { 0 => v[i] = r, 1 => { let _ = v.remove(i); } _ => v.insert(i, r) }
+    }
+    let sep = if rng.chance(1, 2) { " " } else { "" };
+    v.iter().map(|c| c.to_string()).collect::<Vec<_>>().join(sep)
+}
+
 fn mk(text: String, rng: &mut Rng, g: G) -> Case {
     // two thirds of the texts are derived from the grammar itself
     let text = if rng.chance(2, 3) { derived_text(&g, rng) } else { text };
@@ -720,6 +754,18 @@ pub fn family(out: &mut Out, family: &str, tier: &Tier, rng: &mut Rng) {
     }
     for i in 0..n {
         let c = match family {
+            "peg" if i % 12 == 11 => {
+                // the same primitive parser objects applied at several places of one text: an ordered
+                // choice whose first alternative may fail after having matched a prefix, repeated
+                let ks: &[u32] = &[0, 1, 2, 3];
+                let (a, b, c, d) = (*rng.pick(ks), *rng.pick(ks), *rng.pick(ks), *rng.pick(ks));
+                let first = if rng.chance(1, 2) { G::Seq(vec![a, b, c]) } else { G::Both(Box::new(G::Seq(vec![a, b])), Box::new(G::One(c))) };
+                let second = match rng.below(3) { 0 => G::Seq(vec![a, b, d]), 1 => G::Seq(vec![a]), _ => G::Any(vec![a, b, c, d]) };
+                let g = G::Both(
+                    Box::new(G::Repeat(rng.below(2) as u8, 0, None, Box::new(G::Either(Box::new(first), Box::new(second))))),
+                    Box::new(G::Maybe(Box::new(gen_leaf(rng)))));
+                mk(token_text(rng, 9, &[]), rng, g)
+            }
             "peg" => { let d = 1 + rng.below(3); let g = gen_peg(rng, d); mk(token_text(rng, 7, &[]), rng, g) }
             "rep" => { let g = gen_rep(rng); mk(token_text(rng, 9, &[]), rng, g) }
             "capture" => {
@@ -742,6 +788,15 @@ pub fn family(out: &mut Out, family: &str, tier: &Tier, rng: &mut Rng) {
                     _ => G::Both(Box::new(G::Repeat(0, 0, None, Box::new(G::Any(vec![0, 1])))), Box::new(gen_leaf(rng))),
                 };
                 mk(token_text(rng, 8, &['(', ')', '[', ']']), rng, g)
+            }
+            "bracket" if i % 4 == 3 => {
+                // texts that ARE nested bracket structures (runs of one kind inside another kind,
+                // sibling pairs, depth up to four), then disturbed by at most one token
+                let g = gen_bracket(rng, 1);
+                let mut c = mk(String::new(), rng, g);
+                c.text = nested_brackets_text(rng);
+                c.le = LineEnding::Lf; c.tab = 4;
+                c
             }
             "bracket" => { let g = gen_bracket(rng, 1); mk(token_text(rng, 9, &['(', ')', '[', ']', '{', '}']), rng, g) }
             "list" if i % 16 == 15 => {
